@@ -163,16 +163,17 @@ Record RInv (n : nat) (s : rstate) : Prop := mkRInv
   { ri_cap : rcap s = n;
     ri_live : rc s = rlive s;
     ri_le : rc s <= n;
-    ri_wg : rwg s = rc s + sumf sched_ind (rthreads s) }.
+    ri_wg : rwg s = rc s + sumf sched_ind (rthreads s) + rreleased s }.
 
 Lemma rinit_inv n scripts : RInv n (rinit n scripts).
 Proof.
-  constructor; cbn; auto; try lia. rewrite sumf_map. symmetry. apply sumf_zero. auto.
+  constructor; cbn; auto; try lia. rewrite sumf_map. unfold rreleased. cbn.
+  rewrite sumf_zero; [reflexivity|]. auto.
 Qed.
 
 Lemma rstep_inv n s x s' : RInv n s -> rstep s x = Some s' -> RInv n s'.
 Proof.
-  intros [A B C D] H. unfold rstep in H. unfold rlive in *.
+  intros [A B C D] H. unfold rstep in H. unfold rlive, rreleased in *.
   destruct (Nat.ltb x (length (rthreads s))).
   - destruct (nth_error (rthreads s) x) as [th|] eqn:Ht; [|discriminate].
     destruct (rcur th) as [o|]; [|discriminate].
@@ -186,14 +187,17 @@ Proof.
       match goal with |- context [upd_nth (rthreads s) x ?t'] => specialize (U t' th Ht) end;
       assert (E1 : sched_ind th = match rpcof th with RScheduling => 1 | _ => 0 end) by reflexivity;
       rewrite Epc in E1; rewrite E1 in U; cbn [sched_ind rpcof rdone] in U;
-      constructor; unfold rlive; cbn [rcap rc rwg rtasks rthreads]; rewrite ?sumf_app; cbn [sumf is_live tst]; try lia.
+      constructor; unfold rlive, rreleased; cbn [rcap rc rwg rtasks rthreads]; rewrite ?sumf_app;
+      cbn [sumf is_live is_released tst]; try lia.
   - destruct (nth_error (rtasks s) (x - length (rthreads s))) as [tk|] eqn:Hk; [|discriminate].
     pose proof (sumf_upd_nth is_live (rtasks s) (x - length (rthreads s))) as U.
+    pose proof (sumf_upd_nth is_released (rtasks s) (x - length (rthreads s))) as V.
     destruct (tst tk) eqn:Et; inversion H; subst s'; clear H;
-      match goal with |- context [upd_nth (rtasks s) _ ?t'] => specialize (U t' tk Hk) end;
-      assert (E1 : is_live tk = match tst tk with TDone => 0 | _ => 1 end) by reflexivity;
-      rewrite Et in E1; rewrite E1 in U; cbn [is_live tst] in U;
-      constructor; unfold rlive; cbn [rcap rc rwg rtasks rthreads]; try lia.
+      match goal with |- context [upd_nth (rtasks s) _ ?t'] => specialize (U t' tk Hk); specialize (V t' tk Hk) end;
+      assert (E1 : is_live tk = match tst tk with TSpawned | TRunning => 1 | _ => 0 end) by reflexivity;
+      assert (E2 : is_released tk = match tst tk with TReleased => 1 | _ => 0 end) by reflexivity;
+      rewrite Et in E1, E2; rewrite E1 in U; rewrite E2 in V; cbn [is_live is_released tst] in U, V;
+      constructor; unfold rlive, rreleased; cbn [rcap rc rwg rtasks rthreads]; try lia.
 Qed.
 
 Lemma rexec_inv n scripts sched : RInv n (rexec n scripts sched).
@@ -219,6 +223,8 @@ Proof.
   { unfold rlive. apply sumf_zero. intros tk Hin. unfold is_live. rewrite (Ht tk Hin). reflexivity. }
   assert (S0 : sumf sched_ind (rthreads s) = 0).
   { apply sumf_zero. intros th Hin. unfold sched_ind. rewrite (Hth th Hin). reflexivity. }
+  assert (R0 : rreleased s = 0).
+  { unfold rreleased. apply sumf_zero. intros tk Hin. unfold is_released. rewrite (Ht tk Hin). reflexivity. }
   lia.
 Qed.
 
